@@ -19,7 +19,25 @@ type listedCase struct {
 	Want string `json:"want"`
 }
 
-var listedCases = []listedCase{
+// deepCases - the same observations made INSIDE a recursion of 3000 calls (a block depth
+// beyond any table of a few thousand slots): the name of an ended block / of a returned
+// callee is gone there as well, and an ended inner shadow no longer hides the outer name
+func deepCases() []listedCase {
+	var out []listedCase
+	for _, d := range []int{10, 1400, 3000} {
+		head := "如何深？\n    输入N\n    如果N > 0：\n        输出（深：N - 1）\n"
+		tail := fmt.Sprintf("    输出暗\n    拦截异常：\n        输出“看不到”\n输出（深：%d）", d)
+		out = append(out,
+			listedCase{fmt.Sprintf("%d calls deep: a branch declares a name, the branch ends, the name is read", d), head + "    如果真：\n        令暗 = 7\n" + tail, "看不到"},
+			listedCase{fmt.Sprintf("%d calls deep: a loop pass declares a name, the loop ends, the name is read", d), head + "    以V遍历【1，2】：\n        令暗 = V\n" + tail, "看不到"},
+			listedCase{fmt.Sprintf("%d calls deep: a callee declares a name and returns, the caller reads the name", d), "如何内？\n    输入M\n    令暗 = M\n    输出M\n" + head + "    令果 = （内：5）\n" + tail, "看不到"},
+			listedCase{fmt.Sprintf("%d calls deep: an ended inner shadow no longer hides the program's name", d), "令暗 = “外”\n" + head + "    如果真：\n        令暗 = 7\n" + fmt.Sprintf("    输出暗\n输出（深：%d）", d), "外"},
+		)
+	}
+	return out
+}
+
+var listedCases = append([]listedCase{
 	{"a built-in method fails inside a loop of a method that handles the exception: the method's input is gone afterwards, the caller may declare that name",
 		"如何F？\n    输入P\n    以V遍历【1，2】：\n        以V（没有这个方法）\n    输出0\n    拦截异常：\n        输出-1\n令果 = （F：5）\n令P = 7\n输出【果，P】",
 		"[-1，7]"},
@@ -35,7 +53,7 @@ var listedCases = []listedCase{
 	{"a branch of a method declares a type with a constructor; the method is called twice",
 		"如何造？\n    输入N\n    如果N > 0：\n        定义盒：\n            其量 = 0\n        如何新建盒？\n            输入初\n            其量 = 初\n        输出（新建盒：N）之量\n    输出0\n输出【（造：4），（造：5），（造：0）】",
 		"[4，5，0]"},
-}
+}, deepCases()...)
 
 func checkListed(c listedCase) []h.Failure {
 	o := h.Run(c.Src, h.Opts{WantVM: true})
